@@ -33,6 +33,7 @@ type s3Route struct {
 	hname   string
 	action  string
 	wrapped bool
+	tracked bool // registered through the common track() wrapper
 	pos     token.Pos
 }
 
@@ -80,6 +81,7 @@ func s3Routes(P *eng.Prog, reg *ssa.Function) []s3Route {
 			h := eng.Unwrap(eng.Arg(call, 0))
 			if tc, isCall := h.(*ssa.Call); isCall && eng.CalleeIs(tc, "s3api.track") {
 				h = eng.Unwrap(tc.Call.Args[0])
+				r.tracked = true
 			}
 			if ac, isCall := h.(*ssa.Call); isCall && eng.CalleeIs(ac, "s3api.IdentityAccessManagement).Auth") {
 				r.wrapped = true
